@@ -81,7 +81,7 @@ package couchbase
 //@ func (*client).Ping$1
 //@ freevars pingResult opm errorCh
 //@ params result err
-//@ props C20
+//@ props C20 C19
 //@ nonblocking
 //@ requires opm != nil && typeis(opm, "*asyncOp") && as(opm, "*asyncOp").signal != nil && chsent(as(opm, "*asyncOp").signal) - chrecvd(as(opm, "*asyncOp").signal) < chcap(as(opm, "*asyncOp").signal) && !chclosed(as(opm, "*asyncOp").signal)
 //@ requires errorCh != nil && errorCh != as(opm, "*asyncOp").signal && chsent(errorCh) - chrecvd(errorCh) < chcap(errorCh) && !chclosed(errorCh)
